@@ -26,9 +26,21 @@ class _FakeSocketModule(object):
   AI_PASSIVE = _socket.AI_PASSIVE
   AI_ADDRCONFIG = _socket.AI_ADDRCONFIG
   error = _socket.error
+  gaierror = _socket.gaierror
+  herror = _socket.herror
+  timeout = _socket.timeout
+  current_net = None
 
   @staticmethod
   def getaddrinfo(host, port, *a):
+    net = _FakeSocketModule.current_net
+    if net is not None:
+      k = net.n_resolve
+      net.n_resolve += 1
+      if k in net.resolve_fail:
+        # name resolution fails for this connect attempt
+        net.record('resolve_failed', None, (host, int(port), k))
+        raise _socket.gaierror(-2, 'Name or service not known (injected)')
     return [(_socket.AF_INET, _socket.SOCK_STREAM, 6, '', (host, int(port)))]
 
 
@@ -245,12 +257,15 @@ class SimNet(object):
     self.chunker = None    # fn(sock, avail, want) -> n
     self.on_connect = None # fn(sock): called when a connect attempt starts
     self.send_max = None   # most bytes one send() call accepts (sendall always takes everything)
+    self.n_resolve = 0
+    self.resolve_fail = set()   # indices of name resolutions (one per connect attempt) that fail
     self.stall = None      # fn(sock, data, send_index) -> None | (k bytes, seconds)
     self.sockets = []
 
   def install(self):
     _ss.gsocket = self.socket
     _ss.socket = _FakeSocketModule
+    _FakeSocketModule.current_net = self
 
   def record(self, kind, sock, payload=None):
     self.seq += 1
